@@ -131,6 +131,20 @@ CLAIMED = {
    design_ref="DESIGN.md section 6, C09",
    note="Trusted: Coq kernel, extraction, OCaml driver, Rust harness, Python declaration printer + oracle. Blank space inside commands is limited to spaces; names are ASCII.",
    technique="correspondence: Coq model extracted to OCaml vs real header parser + oracle from abstract declaration tree"),
+ "C07": dict(
+   category="proof",
+   text="Coq theorems over the Gallina model of SignalSource::load_signals (sort, dedup, alias substitution, zip back, slice) and of the "
+        "simple Waveform's load/unload/get bookkeeping, parametric in the signal type and the inner source: load_signals_shape (one entry "
+        "per distinct id, increasing order, own id), load_signals_content (request-independent content for any source that answers per id), "
+        "waveform_history (for every history of load/unload calls exactly the loaded-and-not-unloaded signals are exposed, each with that "
+        "content), load_keeps_loaded. Tied to the code by running the extracted model and the real Waveform on the same histories "
+        "(every history of <= 2 calls (thorough: 3) over 39 call shapes, random longer ones) on generated VCDs with an oracle from the abstract "
+        "history, and on corpus FST/GHW/VCD files against one-at-a-time loads, plus direct SignalSource::load_signals calls.",
+   design_ref="DESIGN.md section 6, C07",
+   note="Trusted: Coq kernel, extraction, OCaml driver, Rust harness, Python oracle. Hypothesis inner_pointwise holds by construction for the "
+        "wavemem reader (ids.iter().map(load_signal)); for the FST database it is assumption A-fst, exercised on corpus files. Thread "
+        "interleavings of par_iter are not explored (no shared mutable state; A-rayon).",
+   technique="Coq proof (history induction, refinement to set semantics) + correspondence via OCaml extraction"),
 }
 
 NOT_YET = {}
